@@ -159,6 +159,10 @@ def _max(eng: Any, *args: Any, **kwargs: Any) -> Any:
 
 @model(builtins.len)
 def _len(eng: Any, v: Any) -> Any:
+    if eng.alias and id(v) in eng.alias:
+        v = eng.alias[id(v)]
+    if hasattr(v, "pyvc_len"):
+        return v.pyvc_len(eng)
     if isinstance(v, (SList, SBytes)):
         return len(v.items)
     if isinstance(v, SDict):
